@@ -337,7 +337,7 @@ def _c12(tier, seed):
 PROPS = {
     "C12": dict(
         jobs=_c12,
-        bounds={"quick": "codec round trip for keys/hashes of lengths {0,1,3,5}/{0,2,8,3} (every residue mod 3 of base64), every 64-bit salt, hostnames of 0..9 bytes over [A-Za-z0-9.:_[]-]; Store/Load/Store/Load on one path with every pair of modification times t1 <= t2 <= t1+255 s (equality included), same and fresh loader, second session shorter or longer than the first; missing file; relative, ./relative, sub-directory, absolute paths and the bare file name; the written file cut at every byte; resume: NewMTProto on a file written by the store (symbolic key, key id, salt, address) with no / a different / the same configured host resumes with exactly those values, dials the stored address and sends its first request encrypted under the stored salt with no key exchange; without a file it starts unkeyed on the configured host",
+        bounds={"quick": "codec round trip for keys/hashes of lengths {0,1,3,5}/{0,2,8,3} (every residue mod 3 of base64), every 64-bit salt, hostnames of 0..9 bytes over [A-Za-z0-9.:_[]-]; Store/Load/Store/Load on one path with every pair of modification times t1 <= t2 <= t1+255 s (equality included), same and fresh loader, second session shorter or longer than the first; missing file; relative, ./relative, sub-directory, absolute paths and the bare file name; the written file cut at every byte; resume: NewMTProto on a file written by the store (symbolic key, key id, salt, address) with no / a different / the same configured host resumes with exactly those values, dials the stored address and sends its first request encrypted under the stored salt with no key exchange; without a file it starts unkeyed on the configured host; the torn file met by a fresh loader or by one that read the intact file before (damage at least one timestamp tick later), each asked twice",
                 "thorough": "keys 0..6, hashes {0,3,8}, hostnames {0,5,12}; longer sessions for the history and truncation scenarios"},
         outside="real file I/O and the OS's torn-write behaviour (symbolic one-level file system: os.Stat/ReadFile/WriteFile/Chtimes/Truncate modelled); real encoding/json (modelled for flat string structs without escapes: hostnames needing JSON escaping, non-ASCII, are outside); real sockets on resume (transport factory hooked inside the engine)",
         assumptions=["encoding/base64.StdEncoding modelled exactly by bit arithmetic (line breaks in input are not skipped)", "encoding/json modelled as a canonical writer / object parser for structs of plain strings", "os file functions modelled by an in-memory map; WriteFile stamps the stub clock"],
@@ -374,91 +374,91 @@ PROPS = {
     ),
     "C11": dict(
         jobs=_c11,
-        bounds={"quick": "1 and 2 requests in flight, every non-empty subset of them rejected with bad_server_salt, 1 and 2 successive rotations (symbolic salts), the others accepted and answered after the rotation; a rotation with nobody waiting (bad_server_salt naming an unused id, an answered request, the client's own acknowledgement); new_session_created with a symbolic salt; the library's own receive loop over a fake transport; probe request afterwards",
+        bounds={"quick": "1 and 2 requests in flight, every non-empty subset of them rejected with bad_server_salt, 1 and 2 successive rotations (symbolic salts), the others accepted and answered after the rotation; a rotation with nobody waiting (bad_server_salt naming an unused id, an answered request, the client's own acknowledgement); new_session_created with a symbolic salt; the library's own receive loop over a fake transport; probe request afterwards; a hinted (vector-result) request rejected once or twice, then answered with a bare vector",
                 "thorough": "3 requests in flight"},
         outside="more pending requests / rotations; a key exchange earlier in the same process (stale serviceChannel entries); real sockets; schedules that differ only between yield points",
         assumptions=["cooperative scheduling model; context and tickers stubbed (tickers never fire)", "fake transport at the messages.Common level"],
     ),
     "C16": dict(
         jobs=_c16,
-        bounds={"quick": "one server message of each of 19 kinds (rpc_result / bad_server_salt / container truncated at every cut, pong, msgs_ack, new_session_created, bad_msg_notification, rpc_result for an unknown request, unregistered constructor, truncated body at every cut, empty and nested containers, unexpected objects, empty body, bare Bool/vector) with symbolic fields and odd/even seq_no, delivered to the library's own receive loop (startReadingResponses over a fake transport) with a consumer on the Warnings channel; a repeated rpc_result; after one answered and acknowledged request, a message of each of 8 kinds (bad_server_salt, rpc_result, rpc_result/rpc_error, bad_msg_notification, msgs_ack, pong, msg_detailed_info, msgs_state_info) naming the msg_id of the answered request or of the client's own acknowledgement (symbolic choice); orderly close (io.EOF) followed by reconnection through a hooked transport factory; each followed by a probe request that must complete",
+        bounds={"quick": "one server message of each of 19 kinds (rpc_result / bad_server_salt / container truncated at every cut, pong, msgs_ack, new_session_created, bad_msg_notification, rpc_result for an unknown request, unregistered constructor, truncated body at every cut, empty and nested containers, unexpected objects, empty body, bare Bool/vector) with symbolic fields and odd/even seq_no, delivered to the library's own receive loop (startReadingResponses over a fake transport) with a consumer on the Warnings channel; a repeated rpc_result; after one answered and acknowledged request, a message of each of 8 kinds (bad_server_salt, rpc_result, rpc_result/rpc_error, bad_msg_notification, msgs_ack, pong, msg_detailed_info, msgs_state_info) naming the msg_id of the answered request or of the client's own acknowledgement (symbolic choice); orderly close (io.EOF) followed by reconnection through a hooked transport factory; each followed by a probe request that must complete; one reader at a time per connection (asserted inside the fake transport)",
                 "thorough": "also without a Warnings consumer"},
         outside="longer sequences of such messages (each run is one step from the idle state or from the state after one answered request); real sockets and process exit codes; gzip-packed traffic (C15 decodes it)",
         assumptions=["a panic escaping any goroutine is process death", "transport.NewTransport hooked inside the engine for the reconnect scenario (not replayable natively)"],
     ),
     "C10": dict(
         jobs=_c10,
-        bounds={"quick": "msg_id arithmetic for every pair of non-decreasing clock readings below 2^31 s (symbolic); one send step from every even seq_no; 2 and 3 concurrent senders with clocks that advance 0 or 1000 ns per reading, every interleaving of clock readings and locked transport writes (yield points: time.Now, transport write); acknowledgement of 2 server messages with every odd/even seq_no combination, alone and in a container",
+        bounds={"quick": "msg_id arithmetic for every pair of non-decreasing clock readings below 2^31 s (symbolic); one send step from every even seq_no; 2 and 3 concurrent senders with clocks that advance 0 or 1000 ns per reading, every interleaving of clock readings and locked transport writes (yield points: time.Now, transport write); acknowledgement of 2 server messages with every odd/even seq_no combination, alone and in a container; the written stream across a server-side close and the client's own reconnect (symbolic starting seq_no)",
                 "thorough": "4 concurrent senders; 4 ns clock step"},
         outside="more senders; years >= 2038 (seconds<<32 overflows int64); schedules that differ only between yield points; real sockets",
         assumptions=["time.Now stubbed: (seconds, nanoseconds) pair, non-decreasing (symbolic) or concrete with a fixed step", "cooperative scheduling model with yields at clock readings and transport writes", "division by 10^9 of sec*10^9+ns simplified after the solver confirmed 0 <= ns < 10^9 and the absence of wrap-around"],
     ),
     "C09": dict(
         jobs=_c09,
-        bounds={"quick": "2 concurrent callers (3 for object results) x every answer order x {plain messages, one container} x result kinds {object, Bool, bare Vector<long> with hint}; every subset of the results gzip-packed inside rpc_result (identity-coded gzip stub) for object/vector results as plain messages and Bool results in a container; result payloads symbolic; schedules: symbolic choice of the next goroutine before and after each transport write, at most 2 pre-emptions per path (context-switch bound), deterministic lowest-id-first elsewhere; concrete clock (1 us per reading)",
+        bounds={"quick": "2 concurrent callers (3 for object results) x every answer order x {plain messages, one container} x result kinds {object, Bool, bare Vector<long> with hint}; every subset of the results gzip-packed inside rpc_result (identity-coded gzip stub) for object/vector results as plain messages and Bool results in a container; result payloads symbolic; schedules: symbolic choice of the next goroutine before and after each transport write, at most 2 pre-emptions per path (context-switch bound), deterministic lowest-id-first elsewhere; concrete clock (1 us per reading); a vector-result (hinted) request rejected once by a salt rotation and then answered",
                 "thorough": "3 callers for every kind/packaging"},
         outside="more goroutines; real sockets and crypto (fake transport at the messages.Common level); real gzip streams (the stub codes gzip(x) = marker+x; native replays use real gzip); vector-of-object results; schedules that differ only between yield points",
         assumptions=["cooperative scheduling model: a goroutine runs until it blocks, finishes or reaches a transport write", "time.Now stubbed by a concrete advancing clock"],
     ),
     "C15": dict(
         jobs=_c15,
-        bounds={"quick": "70 seed-chosen registered ids (enums included) followed by up to 3 arbitrary 32-bit words cut at every word boundary and one byte short of it; 20 with vector hints; 30 named decodes; msg_container and gzip_packed (identity-coded gzip stub) with arbitrary bodies; nested constructor ids from the stated candidate set (2 implementers per interface-typed field one level deep, one enum member, pong/rpc_error/msgs_ack, unregistered); allocation obligation size*elem <= 16*len(input)+4096 at every make/MakeSlice with a symbolic size; sizes <= 3 exhaustive, 1 larger representative",
+        bounds={"quick": "70 seed-chosen registered ids (enums included) followed by up to 3 arbitrary 32-bit words cut at every word boundary and one byte short of it; 20 with vector hints; 30 named decodes; msg_container and gzip_packed (identity-coded gzip stub) with arbitrary bodies; nested constructor ids from the stated candidate set (2 implementers per interface-typed field one level deep, one enum member, pong/rpc_error/msgs_ack, unregistered); allocation obligation size*elem <= 16*len(input)+4096 at every make/MakeSlice with a symbolic size; sizes <= 3 exhaustive, 1 larger representative; gzip_packed with a valid header and a damaged body (model: sticky read error), with a termination obligation (3M SSA instructions; native watchdog 5 s)",
                 "thorough": "all registered ids, 5 words; an arbitrary first word"},
         outside="inputs longer than the bound; nested ids outside the candidate set; real gzip streams (the stub codes gzip(x) = marker+x); loops are unrolled by execution and every run ended (termination within the bound)",
         assumptions=["compress/gzip modelled as identity coding with a header marker", "reflect modelled by the engine"],
     ),
     "C02": dict(
         jobs=_c02,
-        bounds={"quick": "as C01 quick, oracle = reference encoder driven by the schema text (regenerated from schemes/*.tl on every run): shared-bit constructors x 12 patterns, service objects, 120 seed-chosen constructors x 4 patterns; string headers for lengths 0..9, 250..258, 65534..65537, 2^24, 2^24+1",
+        bounds={"quick": "as C01 quick, oracle = reference encoder driven by the schema text (regenerated from schemes/*.tl on every run): shared-bit constructors x 12 patterns, service objects, 120 seed-chosen constructors x 4 patterns; string headers for lengths 0..9, 250..258, 65534..65537, 2^24, 2^24+1; pairwise presence patterns as in C01; a refused value serialised immediately before the value under test",
                 "thorough": "all registered constructors x all single-member presence patterns, depth 2; strings 0..279, 2^24-4..2^24+5"},
         outside="as C01; gzip_packed (hand-written codec, see the known finding); vectors longer than 2",
         assumptions=["genschema.py (independent TL reader) and the reference encoder in harness/telegram/c02.go are the oracle", "pairing Go type <-> schema line is by constructor id (ids pinned by C13's ground obligations)"],
     ),
     "C13": dict(
         jobs=_c13,
-        bounds={"quick": "all 1236 schema definitions (ground obligations: registered, CRC() = schema id = crc32(canonical line), field order/kind/flag bit/flags position); registry subset of schema; the 3 hand-written wrappers; byte-level agreement (C02 harness) for 80 seed-chosen constructors; all exported *Client methods: the 343 generated ones called with symbolic distinguishable arguments (request constructor = schema function id, argument i in parameter position i, decoder hint iff vector result, answer handed back unchanged)",
+        bounds={"quick": "all 1236 schema definitions (ground obligations: registered, CRC() = schema id = crc32(canonical line), field order/kind/flag bit/flags position); registry subset of schema; the 3 hand-written wrappers; byte-level agreement (C02 harness) for 80 seed-chosen constructors; all exported *Client methods: the 343 generated ones called with symbolic distinguishable arguments (request constructor = schema function id, argument i in parameter position i, decoder hint iff vector result, answer handed back unchanged); for every API constructor the set of generated marker methods equals the union named by its schema line (case-insensitive), at most one",
                 "thorough": "byte-level agreement for all constructors"},
         outside="a live server (client methods are driven with the transport entry points hooked inside the engine; such counterexamples are not replayable natively)",
         assumptions=["canonical-line rule as used by Telegram's own tooling (drop #id, flags.N?true parameters, bytes->string, <> and {} removed)", "msg_container's id is assigned rather than derived (documented exception)"],
     ),
     "C01": dict(
         jobs=_c01,
-        bounds={"quick": "all enum members; every constructor with a shared flag bit x presence patterns {none, all, only-j, all-but-j}; all MTProto service objects; msg_container with 0..2 messages (symbolic ids, seq_nos, bodies of 1..3 words); a greedy cover of the distinct field shapes (two constructors per combination of kind/element/conditional/bit-stored/shared) x 4 patterns; 100 seed-chosen constructors x patterns {none, all, only first, only second}; leaves symbolic (int/long/double bits, bool, strings and byte strings of length 0..4, vectors of 0..2, int128/int256 with 0..2 leading zero bytes), nested objects depth 1 with the smallest implementer; strings: every length 0..9, 250..258, 65534..65537 (PutMessage/PopMessage kernels), 2^24 and 2^24+1",
+        bounds={"quick": "all enum members; every constructor with a shared flag bit x presence patterns {none, all, only-j, all-but-j}; all MTProto service objects; msg_container with 0..2 messages (symbolic ids, seq_nos, bodies of 1..3 words); a greedy cover of the distinct field shapes (two constructors per combination of kind/element/conditional/bit-stored/shared) x 4 patterns; 100 seed-chosen constructors x patterns {none, all, only first, only second}; leaves symbolic (int/long/double bits, bool, strings and byte strings of length 0..4, vectors of 0..2, int128/int256 with 0..2 leading zero bytes), nested objects depth 1 with the smallest implementer; strings: every length 0..9, 250..258, 65534..65537 (PutMessage/PopMessage kernels), 2^24 and 2^24+1; pairwise presence patterns (every pair of conditional fields in all four combinations, m <= 16) for the shared-bit and feature-cover classes; other codec traffic (a refused value, a different valid value) between encode and decode",
                 "thorough": "all registered constructors x all single-member patterns, depth 2 with 3 implementer variants; every string length 0..279, 2^24-4..2^24+5"},
         outside="strings longer than 4 inside a full constructor (covered through the string kernels), nesting deeper than 2, vectors longer than 2, presence patterns that differ from none/all in more than one field, gzip_packed (its encoder is not implemented: known finding), exact-consumption of trailing bytes",
         assumptions=["reflect is modelled by the engine (validated against native reflect on the differential vectors)", "math/big.Int modelled as bit-vectors; Bytes() explored for 0..2 leading zero bytes"],
     ),
     "C20": dict(
         jobs=_c20,
-        bounds={"quick": "schemes {none, http, https}; the 5 reserved hosts and every host text of length 0..8 over [A-Za-z0-9.-] (look-alikes), ports {none, ':', ':443', ':8080'}; paths of 0..3 segments, each 0..2 bytes over [A-Za-z0-9._~-]; /joinchat/<token> with token 0..2 and arbitrary 8-byte first segments; scheme-less texts incl. the bare host",
+        bounds={"quick": "schemes {none, http, https}; the 5 reserved hosts and every host text of length 0..8 over [A-Za-z0-9.-] (look-alikes), ports {none, ':', ':443', ':8080'}; paths of 0..3 segments, each 0..2 bytes over [A-Za-z0-9._~-]; /joinchat/<token> with token 0..2 and arbitrary 8-byte first segments; scheme-less texts incl. the bare host; every reserved host after a caller replaced that entry of the slice ReservedHosts() returned by an arbitrary host of 4 bytes",
                 "thorough": "host texts 0..12, segments 0..3, scheme-less hosts 0..8"},
         outside="url.Parse itself (the engine runs resolveHttpLink on the URL value Parse yields; counterexamples are re-validated natively through the public Resolve on the text); other schemes (tg://, ftp://: the scheme switch sits behind url.Parse); percent-escapes, query/fragment, non-ASCII",
         assumptions=["for the stated alphabets url.Parse passes host and path through unchanged (checked natively on every replayed counterexample and on the differential validation vectors)"],
     ),
     "C17": dict(
         jobs=_c17,
-        bounds={"quick": "each of the 15 table rows with every parameter string of length 0..4 (all bytes symbolic: digits, signs, non-digits, '%'); every error text of length 0..24 with every 32-bit code; all catalogue entries (ground); each table row also through RpcErrorToNative; delivery: two callers in flight over the library's own receive loop, rpc_error (every code; arbitrary text of 0..6 bytes or rows FILE_PART/FLOOD_WAIT/INTERDC with a 1..2 digit parameter) addressed to either of them, answered in either order; PHONE_MIGRATE_d for every digit d against a list configuring data centres 2 and 4 (transport factory hooked), alone and with a second call in flight",
+        bounds={"quick": "each of the 15 table rows with every parameter string of length 0..4 (all bytes symbolic: digits, signs, non-digits, '%'); every error text of length 0..24 with every 32-bit code; all catalogue entries (ground); each table row also through RpcErrorToNative; delivery: two callers in flight over the library's own receive loop, rpc_error (every code; arbitrary text of 0..6 bytes or rows FILE_PART/FLOOD_WAIT/INTERDC with a 1..2 digit parameter) addressed to either of them, answered in either order; PHONE_MIGRATE_d for every digit d against a list configuring data centres 2 and 4 (transport factory hooked), alone and with a second call in flight; PHONE_MIGRATE_2 / _7 on a client while another client of the process configured data centres 2 and 7 through SetDCList",
                 "thorough": "parameter strings 0..7; texts 0..28; delivery for all 14 non-migration rows"},
         outside="longer texts / parameters (incl. integers overflowing int); formatting of descriptions that take a parameter (fmt is stubbed); real reconnection (sockets, a new key exchange on the new data centre); what happens to other calls in flight during a migration beyond 'the client survives'; more than two callers",
         assumptions=["fmt.Sprintf/Errorf and pkg/errors are opaque total functions", "cooperative scheduling model, fake transport at the messages.Common level, transport.NewTransport hooked inside the engine for the migration scenario (not replayable natively)"],
     ),
     "C08": dict(
         jobs=_c08,
-        bounds={"quick": "abridged/intermediate frames for every word count 0..8 and 120..132 (both sides of the 127-word switch), all payload bits symbolic; unaligned lengths 0..17; sequences of 2 messages; arbitrary headers for <= 6 words; Detect on every 0..5 byte prefix; transport.ReadMsg: every 32-bit error word, frames of 0..28 bytes; segmentation: 2 messages of 1..2 words and a four-byte error frame through the real tcpConn wrapper + go-dry CancelableReader (goroutines executed) + real mode, socket reads unsplit / one byte at a time / split at every pair of cut points, and a 127-word first message with cuts inside its long header",
+        bounds={"quick": "abridged/intermediate frames for every word count 0..8 and 120..132 (both sides of the 127-word switch), all payload bits symbolic; unaligned lengths 0..17; sequences of 2 messages; arbitrary headers for <= 6 words; Detect on every 0..5 byte prefix; transport.ReadMsg: every 32-bit error word, frames of 0..28 bytes; segmentation: 2 messages of 1..2 words and a four-byte error frame through the real tcpConn wrapper + go-dry CancelableReader (goroutines executed) + real mode, socket reads unsplit / one byte at a time / split at every pair of cut points, and a 127-word first message with cuts inside its long header; one writer and one reader object over big-small-big-small frame sequences around 127, 256 and 65536 words",
                 "thorough": "word counts 0..40, 100..140, 250..260, 16383..16384; sequences of 3; headers <= 12 words; frames 0..44"},
         outside="the kernel's TCP stack itself ((*net.conn).Read/Write are replaced inside the engine by a source that hands out arbitrary segments; more than two cut points except the one-byte-per-read case); read deadlines / timeouts; abridged lengths >= 2^24 words; frames longer than the bounds",
         assumptions=["mode-level harnesses use a connection with the exact-count read contract; the segmentation harness checks that tcpConn provides it over a socket that returns short reads"],
     ),
     "C04": dict(
         jobs=_c04,
-        bounds={"quick": "short packets: every length 0..39; key-holder forgeries: inner plaintext of 2..4 blocks with every bit (incl. the declared int32 length) symbolic; tampering: honest packets with bodies {0,4,12,16,20}, every single-bit flip position of key id / ciphertext, every truncation length, any other key; unencrypted parser: all inputs of length 0..40",
+        bounds={"quick": "short packets: every length 0..39; key-holder forgeries: inner plaintext of 2..4 blocks with every bit (incl. the declared int32 length) symbolic; tampering: honest packets with bodies {0,4,12,16,20}, every single-bit flip position of key id / ciphertext, every truncation length, any other key; unencrypted parser: all inputs of length 0..40; no auth key yet / a short key (0, 135, 255 bytes) with arbitrary packets or packets carrying that key's id; wrong msg_key built as real hash xor any non-zero difference",
                 "thorough": "key-holder 2..6 blocks; tamper bodies {0,1,4,8,12,15,16,17,20,32,40}; unencrypted 0..64"},
         outside="longer packets; flips inside msg_key (acceptance there is a SHA-1 preimage event that the uninterpreted-function model cannot exclude); SHA-1/AES internals",
         assumptions=["SHA-1 uninterpreted per input length, AES uninterpreted permutation pair", "tamper harness: SHA-1 (and its 4..19 / 12..19 / 0..7 byte truncations) collision-free on the hash applications of the path (AssumeCollisionFree)"],
     ),
     "C03": dict(
         jobs=_c03,
-        bounds={"quick": "bodies 0..40 bytes (every residue mod 16), all key/salt/session/msg_id/seq_no/ack/body/padding bits symbolic",
+        bounds={"quick": "bodies 0..40 bytes (every residue mod 16), all key/salt/session/msg_id/seq_no/ack/body/padding bits symbolic; two connections sealing at overlapping moments (connection B seals a whole message while A is at any of its four informator calls), bodies of 4 and 24 bytes",
                 "thorough": "bodies 0..96 bytes"},
         outside="bodies longer than the bound (IGE/SHA loops need concrete structure); SHA-1/AES internals",
         assumptions=["SHA-1 uninterpreted per input length, AES uninterpreted permutation pair (ground inverse axioms)",
